@@ -5,15 +5,27 @@ namespace Iavl
 open Std
 set_option linter.unusedSectionVars false
 
-inductive Op (K V : Type) where
-  | set (k : K) (v : V) | remove (k : K) | save | rollback
-  | load (target : Nat) | loadow (target : Nat) | prune (n : Nat)
+/-- read operations, applicable to the working state and to every retained version -/
+inductive ReadOp (K : Type) where
   | get (k : K) | has (k : K) | size | getWithIndex (k : K) | getByIndex (i : Nat)
   | range (s e : Option K) (asc incl : Bool)
+
+inductive Op (K V : Type) where
+  | set (k : K) (v : V) | remove (k : K)
+  /-- `SaveVersion`; `same` is the outcome of the root-hash comparison made when the version
+      number already exists (ignored otherwise) -/
+  | save (same : Bool)
+  | rollback
+  | load (target : Nat) | loadow (target : Nat) | prune (n : Nat) | delfrom (n : Nat)
+  /-- close, construct a new `MutableTree` on the same database with the given InitialVersion
+      option (`none` = option not given) and `LoadVersion(target)` -/
+  | reopen (iv : Option Nat) (target : Nat)
+  | read (r : ReadOp K)                 -- on the working tree
+  | immRead (ver : Nat) (r : ReadOp K)  -- on `GetImmutable(ver)`
   | getVersioned (k : K) (ver : Nat) | versionExists (ver : Nat) | available | latest
 
 inductive Res (K V : Type) where
-  | unit | err | existing
+  | unit | err
   | bool (b : Bool) | nat (n : Nat) | version (n : Nat)
   | optVal (v : Option V) | removed (v : Option V) (b : Bool)
   | idxVal (i : Nat) (v : Option V) | kv (p : Option (K × V)) | list (l : List (K × V))
@@ -34,17 +46,19 @@ structure VState (C : Type) where
   working : C
   lastSaved : C
   base : Nat                    -- tree.version
-  ivPending : Option Nat        -- InitialVersion, while initialVersionSet
+  ivOpt : Nat                   -- opts.InitialVersion (0 when the option was not given)
+  ivSet : Bool                  -- tree.initialVersionSet
 
 /-- `WorkingVersion()` -/
 def VState.workingVersion (s : VState C) : Nat :=
-  if s.base + 1 = 1 then s.ivPending.getD 1 else s.base + 1
+  if s.base + 1 = 1 ∧ s.ivSet then s.ivOpt else s.base + 1
 
 /-- `LoadVersion(target)`; `none` = error, `some (state, latest)` -/
-def VState.load (empty : C) (s : VState C) (target : Nat) : Option (VState C × Nat) :=
+def VState.load (s : VState C) (target : Nat) : Option (VState C × Nat) :=
   match s.versions with
   | [] => if target = 0 then some (s, 0) else none
   | _ =>
+    if 0 < firstVer s.versions ∧ firstVer s.versions < s.ivOpt then none else
     let lat := latestVer s.versions
     if lat < target then none
     else
@@ -52,48 +66,85 @@ def VState.load (empty : C) (s : VState C) (target : Nat) : Option (VState C × 
       match findVer s.versions t with
       | none => none
       | some c => some ({ s with working := c, lastSaved := c, base := t }, lat)
-end generic
 
-/-! ### L0: versioned map -/
-abbrev SMap (K V : Type) := List (K × V)
+/-- the version bookkeeping of every operation, given the three content-level functions -/
+structure Content (K V C : Type) where
+  empty : C
+  set : C → K → V → C × Bool
+  remove : C → K → Option (C × V)
+  commit : Nat → C → C
+  read : C → ReadOp K → Res K V
+  getV : C → K → Option V
 
-def VMap.step (s : VState (SMap K V)) : Op K V → VState (SMap K V) × Res K V
-  | .set k v => ({ s with working := insertSorted k v s.working }, .bool (lookup k s.working).isSome)
+/-- the state of a freshly constructed `MutableTree` on the same database -/
+def VState.fresh (ct : Content K V C) (s : VState C) (iv : Option Nat) : VState C :=
+  { versions := s.versions, working := ct.empty, lastSaved := ct.empty, base := 0,
+    ivOpt := iv.getD 0, ivSet := iv.isSome }
+
+def VState.step (ct : Content K V C) (s : VState C) : Op K V → VState C × Res K V
+  | .set k v => ({ s with working := (ct.set s.working k v).1 }, .bool (ct.set s.working k v).2)
   | .remove k =>
-    match lookup k s.working with
-    | some v => ({ s with working := eraseSorted k s.working }, .removed (some v) true)
+    match ct.remove s.working k with
     | none => (s, .removed none false)
-  | .save =>
+    | some (c, v) => ({ s with working := c }, .removed (some v) true)
+  | .save same =>
     let ver := s.workingVersion
-    let s' := { s with ivPending := none }
+    let s' := { s with ivSet := false }
     match findVer s.versions ver with
-    | some _ => (s', .existing)
+    | some c => if same then ({ s' with working := c, lastSaved := c, base := ver }, .version ver) else (s', .err)
     | none =>
       if latestVer s.versions < ver then
-        ({ s' with versions := s.versions ++ [(ver, s.working)], lastSaved := s.working, base := ver }, .version ver)
+        let c := ct.commit ver s.working
+        ({ s' with versions := s.versions ++ [(ver, c)], working := c, lastSaved := c, base := ver }, .version ver)
       else (s', .err)
-  | .rollback => ({ s with working := if s.base = 0 then [] else s.lastSaved }, .unit)
+  | .rollback => ({ s with working := if s.base = 0 then ct.empty else s.lastSaved }, .unit)
   | .load target =>
-    match s.load [] target with
+    match s.load target with
     | none => (s, .err)
     | some (s', lat) => (s', .version lat)
   | .loadow target =>
-    match s.load [] target with
+    match s.load target with
     | none => (s, .err)
     | some (s', _) => ({ s' with versions := s'.versions.filter (fun p => p.1 ≤ s'.base) }, .unit)
   | .prune n =>
     if latestVer s.versions ≤ n then (s, .err)
     else ({ s with versions := s.versions.filter (fun p => n < p.1) }, .unit)
-  | .get k => (s, .optVal (lookup k s.working))
-  | .has k => (s, .bool (lookup k s.working).isSome)
-  | .size => (s, .nat s.working.length)
-  | .getWithIndex k => (s, .idxVal (rank k s.working) (lookup k s.working))
-  | .getByIndex i => (s, .kv s.working[i]?)
-  | .range st en asc incl => (s, .list (rangeSpec s.working st en asc incl))
-  | .getVersioned k ver => (s, .optVal ((findVer s.versions ver).bind (lookup k)))
+  | .delfrom n => ({ s with versions := s.versions.filter (fun p => p.1 < n) }, .unit)
+  | .reopen iv target =>
+    match (s.fresh ct iv).load target with
+    | none => (s.fresh ct iv, .err)
+    | some (s', lat) => (s', .version lat)
+  | .read r => (s, ct.read s.working r)
+  | .immRead ver r =>
+    match findVer s.versions ver with
+    | none => (s, .err)
+    | some c => (s, ct.read c r)
+  | .getVersioned k ver => (s, .optVal ((findVer s.versions ver).bind (fun c => ct.getV c k)))
   | .versionExists ver => (s, .bool (findVer s.versions ver).isSome)
   | .available => (s, .versions (s.versions.map (·.1)))
   | .latest => (s, .nat (latestVer s.versions))
+end generic
+
+/-! ### L0: versioned map -/
+abbrev SMap (K V : Type) := List (K × V)
+
+def readMap (m : SMap K V) : ReadOp K → Res K V
+  | .get k => .optVal (lookup k m)
+  | .has k => .bool (lookup k m).isSome
+  | .size => .nat m.length
+  | .getWithIndex k => .idxVal (rank k m) (lookup k m)
+  | .getByIndex i => .kv m[i]?
+  | .range st en asc incl => .list (rangeSpec m st en asc incl)
+
+def mapContent : Content K V (SMap K V) where
+  empty := []
+  set m k v := (insertSorted k v m, (lookup k m).isSome)
+  remove m k := (lookup k m).map (fun v => (eraseSorted k m, v))
+  commit _ m := m
+  read := readMap
+  getV m k := lookup k m
+
+def VMap.step (s : VState (SMap K V)) (op : Op K V) : VState (SMap K V) × Res K V := s.step mapContent op
 
 /-! ### L1.5: the same machine over trees -/
 abbrev OTree (K V : Type) := Option (Node K V)
@@ -109,51 +160,27 @@ def commitVer (ver : Nat) : Node K V → Node K V
   | .inner k h sz none l r => .inner k h sz (some ver) (commitVer ver l) (commitVer ver r)
   | .inner k h sz (some x) l r => .inner k h sz (some x) l r
 
-def VTree.step (s : VState (OTree K V)) : Op K V → VState (OTree K V) × Res K V
-  | .set k v =>
-    match s.working with
-    | none => ({ s with working := some (.leaf k v none) }, .bool false)
-    | some t => let (t', upd) := t.set k v; ({ s with working := some t' }, .bool upd)
-  | .remove k =>
-    match s.working with
-    | none => (s, .removed none false)
-    | some t =>
-      match t.remove k with
-      | none => (s, .removed none false)
-      | some ⟨t', _, v⟩ => ({ s with working := t' }, .removed (some v) true)
-  | .save =>
-    let ver := s.workingVersion
-    let s' := { s with ivPending := none }
-    match findVer s.versions ver with
-    | some _ => (s', .existing)
-    | none =>
-      if latestVer s.versions < ver then
-        let c := s.working.map (commitVer ver)
-        ({ s' with versions := s.versions ++ [(ver, c)], working := c, lastSaved := c, base := ver }, .version ver)
-      else (s', .err)
-  | .rollback => ({ s with working := if s.base = 0 then none else s.lastSaved }, .unit)
-  | .load target =>
-    match s.load none target with
-    | none => (s, .err)
-    | some (s', lat) => (s', .version lat)
-  | .loadow target =>
-    match s.load none target with
-    | none => (s, .err)
-    | some (s', _) => ({ s' with versions := s'.versions.filter (fun p => p.1 ≤ s'.base) }, .unit)
-  | .prune n =>
-    if latestVer s.versions ≤ n then (s, .err)
-    else ({ s with versions := s.versions.filter (fun p => n < p.1) }, .unit)
-  | .get k => (s, .optVal (s.working.bind (fun t => (t.get k).2)))
-  | .has k => (s, .bool (match s.working with | none => false | some t => t.has k))
-  | .size => (s, .nat (match s.working with | none => 0 | some t => t.size))
-  | .getWithIndex k => (s, match s.working with | none => .idxVal 0 none | some t => .idxVal (t.get k).1 (t.get k).2)
-  | .getByIndex i => (s, .kv (s.working.bind (fun t => t.getByIndex i)))
-  | .range st en asc incl => (s, .list (match s.working with | none => [] | some t => t.walk st en asc incl))
-  | .getVersioned k ver =>
-    (s, .optVal ((findVer s.versions ver).bind (fun ot => ot.bind (fun t => (t.get k).2))))
-  | .versionExists ver => (s, .bool (findVer s.versions ver).isSome)
-  | .available => (s, .versions (s.versions.map (·.1)))
-  | .latest => (s, .nat (latestVer s.versions))
+def readTree (c : OTree K V) : ReadOp K → Res K V
+  | .get k => .optVal (c.bind (fun t => (t.get k).2))
+  | .has k => .bool (match c with | none => false | some t => t.has k)
+  | .size => .nat (match c with | none => 0 | some t => t.size)
+  | .getWithIndex k => (match c with | none => .idxVal 0 none | some t => .idxVal (t.get k).1 (t.get k).2)
+  | .getByIndex i => .kv (c.bind (fun t => t.getByIndex i))
+  | .range st en asc incl => .list (match c with | none => [] | some t => t.walk st en asc incl)
+
+def treeContent : Content K V (OTree K V) where
+  empty := none
+  set c k v := match c with
+    | none => (some (.leaf k v none), false)
+    | some t => let (t', upd) := t.set k v; (some t', upd)
+  remove c k := match c with
+    | none => none
+    | some t => (t.remove k).map (fun r => (r.node, r.value))
+  commit ver c := c.map (commitVer ver)
+  read := readTree
+  getV c k := c.bind (fun t => (t.get k).2)
+
+def VTree.step (s : VState (OTree K V)) (op : Op K V) : VState (OTree K V) × Res K V := s.step treeContent op
 
 def runMap (s : VState (SMap K V)) : List (Op K V) → List (Res K V)
   | [] => []
